@@ -60,9 +60,9 @@ m = {
  "setup_cmd": "cd /verif && python3 tools/gen_tables.py && (cd lean && lake build UBidi ubidi-driver UBidi.Props) && (cd harness && CARGO_NET_OFFLINE=true cargo build --release --offline)",
  "hooks": {
    "guard": "unicode_bidi_verif",
-   "enable": "none needed so far: every check drives the crate through its public API (RUSTFLAGS='--cfg unicode_bidi_verif' is reserved for stage-level hooks)",
+   "enable": "harness/.cargo/config.toml sets build.rustflags = [\"--cfg\", \"unicode_bidi_verif\"], so every harness build compiles /repo with the hook module `unicode_bidi::verif_hooks` (re-exports of explicit::compute, prepare::isolating_run_sequences, implicit::{resolve_weak, resolve_neutral, resolve_levels}); the STAGE stream of the C01/C07/C11/C13 checks compares every stage with the Model's stage function",
    "baseline_off_cmd": "cd /repo && cargo test --workspace --no-fail-fast --offline",
-   "source_commits": [],
+   "source_commits": ["564909c"],
    "add_only": True,
  },
  "engines": [{"name": "lean4-model+correspondence", "path": "/verif/lean, /verif/harness, /verif/tools/run_check.py",
